@@ -617,6 +617,10 @@ func (e *Engine) Check(deep bool) {
 	if e.Dead {
 		return
 	}
+	e.checkStructure()
+	if e.Dead {
+		return
+	}
 	// revision counter
 	e.checkRev()
 	if !deep || e.Dead {
@@ -737,4 +741,63 @@ func (e *Engine) CaseSig() (string, bool) {
 		}
 	}
 	return fmt.Sprintf("%x", vk.Mix(0, h)), nontrivial
+}
+
+// checkStructure asserts, on the hooked in-memory state (VerifVolume, taken
+// under the server lock at a quiescent point), the invariants that make reads
+// and reclamation correct: a known block-map entry points at the topmost file
+// that has an extent for the block, and the reclamation boundary protects every
+// retained user-created snapshot. It localises faults the behavioural oracles
+// see later (or only with the right follow-up write).
+func (e *Engine) checkStructure() {
+	v := e.Srv.VerifVolume()
+	if !v.Open {
+		return
+	}
+	e.Res.Count("structure_checks", 1)
+	if len(v.Files)+1 != v.NumFiles || len(v.Files) != len(e.M.Chain)+1 {
+		e.Fail("C12", "structure:file-table-length", fmt.Sprintf("file table has %d entries, chain members %d, model chain %d", v.NumFiles, len(v.Files), len(e.M.Chain)+1))
+		return
+	}
+	nb := int(v.Size / Block)
+	if len(v.Location) < nb {
+		e.Fail("C16", "structure:block-map-shorter-than-volume", fmt.Sprintf("block map has %d entries for %d blocks", len(v.Location), nb))
+		return
+	}
+	top := make([]int, nb)
+	for i, name := range v.Files {
+		exts, _, err := fsx.Extents(filepath.Join(e.Dir, name))
+		if err != nil {
+			return
+		}
+		for _, x := range exts {
+			for b := x.Off / Block; b < (x.Off+x.Len+Block-1)/Block && int(b) < nb; b++ {
+				top[b] = i + 1
+			}
+		}
+	}
+	for b := 0; b < nb; b++ {
+		loc := int(v.Location[b])
+		switch {
+		case loc == 0:
+		case loc >= v.NumFiles:
+			e.Fail("C01", "structure:block-map-index-out-of-range", fmt.Sprintf("block %d maps to file index %d of %d", b, loc, v.NumFiles))
+			return
+		case top[b] != 0 && loc != top[b]:
+			e.Fail("C01", "structure:block-map-not-topmost:"+e.lastMut(), fmt.Sprintf("block %d maps to file %d (%s) but the topmost file with data there is %d (%s)", b, loc, v.Files[loc-1], top[b], v.Files[top[b]-1]))
+			return
+		case top[b] == 0 && loc != 1:
+			e.Fail("C01", "structure:block-map-points-at-hole:"+e.lastMut(), fmt.Sprintf("block %d maps to file %d (%s) which has no data there, nor has any other file", b, loc, v.Files[loc-1]))
+			return
+		}
+	}
+	newest := 0
+	for i, c := range e.M.Chain {
+		if c.User && !c.Removed {
+			newest = i + 1
+		}
+	}
+	if v.SnapIndx < newest {
+		e.Fail("C06", "structure:user-snapshot-outside-reclamation-boundary:"+e.lastMut(), fmt.Sprintf("newest retained user snapshot is file %d (%s) but the reclamation boundary (SnapIndx) is %d: its blocks may be punched", newest, v.Files[newest-1], v.SnapIndx))
+	}
 }
